@@ -786,6 +786,7 @@ fn main() {
     match cmd {
         "run" => {
             let _ = exec::INFLIGHT_DIR.set(out.clone());
+            exec::start_watchdog(std::env::var("VERIF_CASE_LIMIT_S").ok().and_then(|x| x.parse().ok()).unwrap_or(60));
             let prop = arg(&args, "--prop", "");
             match prop.as_str() {
                 "C01" | "C02" | "C03" => edge_props(&prop, &tier, seed, threads, &out),
